@@ -345,6 +345,17 @@ def _bounded(u, x):
     return False
 
 
+def _max_minus_min(l, r):
+    """l is std::max(a, b) and r is std::min of the same two operands"""
+    def strip(t):
+        while isinstance(t, tuple) and t and t[0] == "cast":
+            t = t[2]
+        return t
+    l, r = strip(l), strip(r)
+    return (isinstance(l, tuple) and isinstance(r, tuple) and l and r and l[0] == "c" and r[0] == "c" and str(l[1]) == "std::max" and str(r[1]) == "std::min"
+            and len(l[3]) == 2 and len(r[3]) == 2 and frozenset(l[3]) == frozenset(r[3]))
+
+
 def rule_arith(rep, db):
     seen = {}
 
@@ -384,6 +395,8 @@ def rule_arith(rep, db):
                 ok = None
                 if op == "-" and frozenset((T.norm(u, n["l"]), T.norm(u, n["r"]))) in ordered:
                     ok = "operands ordered by the enclosing comparison"
+                elif op == "-" and _max_minus_min(T.norm(u, n["l"]), T.norm(u, n["r"])):
+                    ok = "std::max(a, b) - std::min(a, b): ordered by construction"
                 elif (name, op, "signed" if signed else "unsigned") in ARITH_JUSTIFIED:
                     ok = "justified"
                     if key not in seen:
